@@ -40,8 +40,15 @@ def run(ctx):
         n_units = rng.randint(1, 4)
         n_cands = 2 if rng.random() < 0.8 else 3
         keys, scheme = rand_keys(rng, n_units)
-        raw_units = P.Units(units=list(keys), candidates=n_cands) if rng.random() < 0.7 else P.Units(candidates=n_cands)
-        units = UView(raw_units, keys)
+        # candidate values: the indices themselves, or floats / integers beyond the small-integer cache / strings / tuples; every literal is then built with
+        # a FRESH object equal to the registered candidate (UView.ck), and the assignments handed to eval() hold fresh equal objects as well
+        cscheme = rng.choice(["index", "index", "index", "float", "bigint", "str", "tuple"])
+        ckeys = {"index": None, "float": [0.5 + k for k in range(n_cands)], "bigint": [1000 + 7 * k for k in range(n_cands)],
+                 "str": ["cand-%d" % k for k in range(n_cands)], "tuple": [("c", 300 + k) for k in range(n_cands)]}[cscheme]
+        cands_arg = n_cands if ckeys is None else list(ckeys)
+        raw_units = P.Units(units=list(keys), candidates=cands_arg) if rng.random() < 0.7 else P.Units(candidates=cands_arg)
+        units = UView(raw_units, keys, ckeys)
+        ctx.dist["candidate_values=" + cscheme] += 1
         for kk in keys:
             raw_units[kk]                 # lazily created units get their positions in this order
         ctx.dist["unit_keys=" + scheme] += 1
@@ -52,7 +59,7 @@ def run(ctx):
             tree = {("and" if it % 2 == 0 else "or"): [a, b]}
         else:
             tree = gen.rand_expr_tree(rng, n_units, 3 if ctx.tier == "quick" else 4, n_cands)
-        case = dict(nUnits=n_units, nCands=n_cands, tree=tree)
+        case = dict(nUnits=n_units, nCands=n_cands, tree=tree, candidateValues=cscheme)
         asg = spec.assignments(n_units, n_cands)
         spec_tab = [spec.expr_true(tree, a) for a in asg]
         # implementation: build with the real operators, watching the operands
@@ -72,13 +79,13 @@ def run(ctx):
                 pair_seen.add((kind(tree[op][0]), kind(tree[op][1]), op))
             else:
                 e = gen.build_expr(P, units, tree)
-            impl_tab = [bool(e.eval(list(a))) for a in asg]
+            impl_tab = [bool(e.eval([units.ck(c) for c in a])) for a in asg]
             impl_data = data3(e.data)
             # container read-back
-            prov = P.Provenance([e, units[0] == 1])
+            prov = P.Provenance([e, units[0] == units.ck(1)])
             n_before = len(raw_units.units)
             back = prov[0]
-            back_tab = [bool(back.eval(list(a))) for a in asg]
+            back_tab = [bool(back.eval([units.ck(c) for c in a])) for a in asg]
             if len(raw_units.units) != n_before:
                 ctx.mismatch("reading a row back changed the unit set", case, impl=[str(x) for x in raw_units.units])
                 continue
